@@ -1,8 +1,10 @@
 import PfdlModel.Basic
 import PfdlModel.ExprParse
+import PfdlModel.Surface
+import PfdlProofs.ParseRoundTrip
 /-! C13 – guards and conditions evaluate to their arithmetic / logical value. -/
 namespace Pfdl.Props.C13
-open Pfdl Pfdl.Generated Pfdl.ExprParse
+open Pfdl Pfdl.Generated Pfdl.ExprParse Pfdl.Surface
 
 /-- the 12 binary operators of the grammar, with the Python function each must denote -/
 def expectedOps : List (String × PyOp) :=
@@ -164,36 +166,163 @@ theorem k10_witness : rank "*" ≠ rank "/" ∧
     ∀ a b c : Expr, parse [.atom a, .op "/", .atom b, .op "*", .atom c] = some (.bin "/" a (.bin "*" b c)) := by
   refine ⟨by decide, ?_⟩
   intro a b c
-  simp [parse, parseE, loopE, precTable, List.lookup]
+  simp [parse, parseWith, parseE, loopE, precTable, List.lookup]
 
 /-- the same split between `-` and `+` (`a + b - c` is read `a + (b - c)`) does not change the value -/
 theorem minus_plus_split_harmless (x y z : Rat) : x + (y - z) = x + y - z := by
   rw [Rat.sub_eq_add_neg, Rat.sub_eq_add_neg, Rat.add_assoc]
 
+
+/-! ### the parser reads exactly the canonical tree of its table -/
+
+/-- **Characterisation of the reading.**  For the table re-extracted from the generated parser: a token list
+    (atoms = values) is read as `t` iff `t` is the canonical tree of the table — every operator's left operand
+    is what the loop at that level had built (no open right-edge level would have taken the operator: tighter
+    binds first, equal rank associates to the left), its right operand is canonical at the operator's
+    right-operand level, `paren` nodes are exactly the parentheses — and `t` has exactly those tokens. -/
+theorem reading_iff (ts : List Tok) (hok : TokOk ts) (t : Expr) :
+    parse ts = some t ↔ Canon precTable unaryPrec 0 t ∧ flat t = ts :=
+  parseWith_iff precTable unaryPrec ts hok t
+
+/-- the extracted table is the ordinary table except that `/` and `+` rank one step lower -/
+theorem table_vs_ordinary : precTable = ordTable.map (fun e =>
+    if e.1 = "/" ∨ e.1 = "+" then (e.1, e.2.1 - 1, e.2.2 - 1) else e) := by decide
+
+/-- the ordinary reading is the canonical tree of the ordinary table (same theorem, other table) -/
+theorem ordinary_reading_iff (ts : List Tok) (hok : TokOk ts) (s : Expr) :
+    parseWith ordTable unaryPrec ts = some s ↔ Canon ordTable unaryPrec 0 s ∧ flat s = ts :=
+  parseWith_iff ordTable unaryPrec ts hok s
+
+/-- **Agreement on the common fragment.**  A tree that is canonical for both tables is the reading of its
+    tokens under both: the grammar reads the text as ordinary precedence does. -/
+theorem common_fragment_agrees (s : Expr) (ho : Canon ordTable unaryPrec 0 s) (hg : Canon precTable unaryPrec 0 s) :
+    parse (flat s) = some s ∧ parseWith ordTable unaryPrec (flat s) = some s :=
+  ⟨parseWith_flat precTable unaryPrec s hg, parseWith_flat ordTable unaryPrec s ho⟩
+
+theorem flat_rot : ∀ s : Expr, flat (rot s) = flat s
+  | .bin o l r => by
+    unfold rot
+    by_cases ho : o = "-"
+    · subst ho
+      simp only [if_true]
+      have ihl := flat_rot l
+      have ihr := flat_rot r
+      split
+      · rename_i x y heq
+        rw [heq] at ihl
+        simp only [flat] at ihl ⊢
+        rw [ihr, ← ihl]
+        simp
+      · simp only [flat, ihl, ihr]
+    · simp only [ho, if_false, flat, flat_rot l, flat_rot r]
+  | .paren e => by simp [rot, flat, flat_rot e]
+  | .not e => by simp [rot, flat, flat_rot e]
+  | .lit v => by simp [rot]
+  | .path q => by simp [rot]
+  | .none => by simp [rot]
+
+theorem binSem_regroup (a b c : Option OV) :
+    (match a, (match b, c with | some y, some z => binSem "-" y z | _, _ => none) with
+      | some x, some w => binSem "+" x w | _, _ => none) =
+    (match (match a, b with | some x, some y => binSem "+" x y | _, _ => none), c with
+      | some w, some z => binSem "-" w z | _, _ => none) := by
+  cases a with
+  | none => cases b <;> cases c <;> simp
+  | some x =>
+    cases b with
+    | none => cases c <;> simp
+    | some y =>
+      cases c with
+      | none => cases x <;> cases y <;> simp [binSem]
+      | some z =>
+        cases x <;> cases y <;> cases z <;> simp [binSem]
+        rename_i q1 q2 q3
+        rw [Rat.sub_eq_add_neg, Rat.sub_eq_add_neg, Rat.add_assoc]
+
+/-- **The regrouping never changes the value**, for every tree and every value of the variables -/
+theorem sem_rot (v : Val) : ∀ s : Expr, sem v (rot s) = sem v s
+  | .bin o l r => by
+    unfold rot
+    by_cases ho : o = "-"
+    · subst ho
+      simp only [if_true]
+      have ihl := sem_rot v l
+      have ihr := sem_rot v r
+      split
+      · rename_i x y heq
+        rw [heq] at ihl
+        simp only [sem] at ihl ⊢
+        rw [ihr, ← ihl]
+        exact binSem_regroup (sem v x) (sem v y) (sem v r)
+      · simp only [sem, ihl, ihr]
+    · simp only [ho, if_false, sem, sem_rot v l, sem_rot v r]
+  | .paren e => by simp [rot, sem, sem_rot v e]
+  | .not e => by simp [rot, sem, sem_rot v e]
+  | .lit w => by simp [rot]
+  | .path q => by simp [rot]
+  | .none => by simp [rot]
+
+/-- **From the ordinary reading to the decision.**  If `s` is the ordinary reading of a text and the
+    regrouped tree is canonical for the grammar's table (decidable for every concrete tree by `canonB`; false
+    exactly for the shapes of finding K10), then the grammar reads the text as `rot s`, and for every value of
+    the variables the scheduler's decision is the truth value of `s` under ordinary semantics. -/
+theorem decision_of_ordinary_reading (s : Expr) (hg : Canon precTable unaryPrec 0 (rot s))
+    (v : Val) (k : Nat) (r : OV) (hs : sem v s = some r) :
+    parse (flat s) = some (rot s) ∧ (((rot s).exec (fun _ => some v) k).1.map Val.truthy) = some r.truth := by
+  refine ⟨?_, decision_eq_truth v (rot s) k r (by rw [sem_rot]; exact hs)⟩
+  have := parseWith_flat precTable unaryPrec (rot s) hg
+  rwa [flat_rot] at this
+
+theorem canonB_iff (T : Table) (u : Nat) : ∀ (p : Nat) (t : Expr), canonB T u p t = true ↔ Canon T u p t
+  | p, .paren e => by simp [canonB, Canon, canonB_iff T u 0 e]
+  | p, .not e => by simp [canonB, Canon, canonB_iff T u u e]
+  | p, .bin o l r => by
+    simp only [canonB, Canon]
+    cases hl : T.lookup o with
+    | none => simp
+    | some x =>
+      obtain ⟨pr, rp⟩ := x
+      simp [canonB_iff T u p l, canonB_iff T u rp r, and_assoc]
+  | p, .lit v => by simp [canonB, Canon]
+  | p, .path q => by simp [canonB, Canon]
+  | p, .none => by simp [canonB, Canon]
+
 /-! readings of three-operand texts, for arbitrary operands -/
 section
 variable (a b c : Expr)
 example : parse [.atom a, .op "+", .atom b, .op "*", .atom c] = some (.bin "+" a (.bin "*" b c)) := by
-  simp [parse, parseE, loopE, precTable, List.lookup]
+  simp [parse, parseWith, parseE, loopE, precTable, List.lookup]
 example : parse [.atom a, .op "*", .atom b, .op "+", .atom c] = some (.bin "+" (.bin "*" a b) c) := by
-  simp [parse, parseE, loopE, precTable, List.lookup]
+  simp [parse, parseWith, parseE, loopE, precTable, List.lookup]
 example : parse [.atom a, .op "-", .atom b, .op "-", .atom c] = some (.bin "-" (.bin "-" a b) c) := by
-  simp [parse, parseE, loopE, precTable, List.lookup]
+  simp [parse, parseWith, parseE, loopE, precTable, List.lookup]
 example : parse [.atom a, .op "/", .atom b, .op "/", .atom c] = some (.bin "/" (.bin "/" a b) c) := by
-  simp [parse, parseE, loopE, precTable, List.lookup]
+  simp [parse, parseWith, parseE, loopE, precTable, List.lookup]
 example : parse [.atom a, .op "<", .atom b, .op "And", .atom c] = some (.bin "And" (.bin "<" a b) c) := by
-  simp [parse, parseE, loopE, precTable, List.lookup]
+  simp [parse, parseWith, parseE, loopE, precTable, List.lookup]
 example : parse [.atom a, .op "Or", .atom b, .op "And", .atom c] = some (.bin "Or" a (.bin "And" b c)) := by
-  simp [parse, parseE, loopE, precTable, List.lookup]
+  simp [parse, parseWith, parseE, loopE, precTable, List.lookup]
 example : parse [.lpar, .atom a, .op "+", .atom b, .rpar, .op "*", .atom c] = some (.bin "*" (.paren (.bin "+" a b)) c) := by
-  simp [parse, parseE, loopE, precTable, List.lookup]
+  simp [parse, parseWith, parseE, loopE, precTable, List.lookup]
 example : parse [.bang, .atom a, .op "And", .atom b] = some (.bin "And" (.not a) b) := by
-  simp [parse, parseE, loopE, precTable, List.lookup, unaryPrec]
+  simp [parse, parseWith, parseE, loopE, precTable, List.lookup, unaryPrec]
 end
 
 /-! non-vacuity: a well-typed expression over a struct value -/
 def v0 : Val := .struct [("n", .num 3 false), ("b", .bool true), ("m", .struct [("n", .num (1/2) true)])]
 def e0 : Expr := .bin "And" (.path ["r", "b"]) (.bin ">=" (.bin "*" (.path ["r", "m", "n"]) (.lit (.num 2 false))) (.lit (.num 1 false)))
 example : ∃ r, sem v0 e0 = some r ∧ r.truth = true := ⟨.bool true, by decide +kernel, rfl⟩
+
+/-- `r.n + 1 * 2 - 3 < 4 And r.b`: its ordinary reading is not canonical for the grammar (the `-` after `+`),
+    the regrouped tree is, and it is what the parser model reads -/
+def s1 : Expr :=
+  .bin "And" (.bin "<" (.bin "-" (.bin "+" (.path ["r", "n"]) (.bin "*" (.lit (.num 1 false)) (.lit (.num 2 false))))
+    (.lit (.num 3 false))) (.lit (.num 4 false))) (.path ["r", "b"])
+example : canonB ordTable unaryPrec 0 s1 = true ∧ canonB precTable unaryPrec 0 s1 = false ∧
+    canonB precTable unaryPrec 0 (rot s1) = true := by decide +kernel
+/-- the shape of K10 is ordinary-canonical, and neither it nor its regrouping is canonical for the grammar -/
+def sK10 : Expr := .bin "*" (.bin "/" (.lit (.num 8 false)) (.lit (.num 2 false))) (.lit (.num 2 false))
+example : canonB ordTable unaryPrec 0 sK10 = true ∧ canonB precTable unaryPrec 0 (rot sK10) = false := by
+  decide +kernel
 
 end Pfdl.Props.C13
